@@ -182,10 +182,95 @@ def extract_settings() -> dict:
     return out
 
 
+
+# --------------------------------------------------------------------------
+# round 6: with which arguments the real readers are constructed
+# --------------------------------------------------------------------------
+import contextlib
+import inspect
+import itertools
+import tempfile
+
+
+@contextlib.contextmanager
+def spy_readers(rec: list):
+    """Record (file name, fixed, length_limit, preprocessor given) of every `FortranReader` that is
+    constructed - by `FortranSourceFile.__init__` and by `FortranReader.include` - while the block
+    runs.  The spy is a subclass that only looks at its constructor arguments."""
+    common.import_ford()
+    import ford.reader as fr
+    import ford.sourceform as sf
+
+    orig = fr.FortranReader
+    sig = inspect.signature(orig.__init__)
+    for name in ("filename", "fixed", "length_limit", "preprocessor"):
+        if name not in sig.parameters:
+            raise LookupError(f"ford.reader.FortranReader.__init__ has no parameter {name!r}")
+
+    class SpyReader(orig):   # type: ignore[misc, valid-type]
+        def __init__(self, *a, **kw):
+            b = sig.bind(self, *a, **kw)
+            b.apply_defaults()
+            rec.append((Path(str(b.arguments["filename"])).name, bool(b.arguments["fixed"]),
+                        bool(b.arguments["length_limit"]), bool(b.arguments["preprocessor"])))
+            super().__init__(*a, **kw)
+
+    SpyReader.__name__ = orig.__name__
+    SpyReader.__qualname__ = orig.__qualname__
+    had_sf = getattr(sf, "FortranReader", None)
+    fr.FortranReader = SpyReader
+    sf.FortranReader = SpyReader
+    try:
+        yield
+    finally:
+        fr.FortranReader = orig
+        if had_sf is not None:
+            sf.FortranReader = had_sf
+
+
+CFG_MAIN = ["      subroutine cfgprobe", "      integer :: mainv".ljust(72) + ",mainoff",
+            "      include 'cfgprobe.inc'", "      end subroutine cfgprobe"]
+CFG_INC = ["      integer :: incv".ljust(72) + ",incoff"]
+
+
+def probe_reader_config() -> list:
+    """[((fixed, limit setting, preprocessor given), main reader cfg, nested reader cfg)] for the 8
+    combinations: the real `FortranSourceFile` is constructed on a file that INCLUDEs another one
+    and the arguments of the two real `FortranReader`s are recorded."""
+    common.import_ford()
+    import ford.sourceform as sf
+    from ford.settings import ProjectSettings
+
+    rows = []
+    with tempfile.TemporaryDirectory(prefix="ford-verif-c14cfg-") as d:
+        d = Path(d)
+        (d / "cfgprobe.inc").write_text("".join(l + "\n" for l in CFG_INC))
+        for fixed, lim, pp in itertools.product((False, True), repeat=3):
+            main = d / ("main.F" if fixed else "main.F90")
+            main.write_text("".join(l + "\n" for l in CFG_MAIN))
+            st = ProjectSettings(fixed_length_limit=lim)
+            rec: list = []
+            sf.namelist = sf.NameSelector()
+            with spy_readers(rec), common.quiet():
+                sf.FortranSourceFile(str(main), st, st.preprocessor.split() if pp else None, fixed, incl_src=False)
+            mains = [r for r in rec if r[0] == main.name]
+            incs = [r for r in rec if r[0] == "cfgprobe.inc"]
+            if len(mains) != 1 or len(incs) != 1 or len(rec) != 2:
+                raise LookupError(f"FortranSourceFile on a file with one include constructed the readers {rec!r}")
+            rows.append(((fixed, lim, pp), mains[0][1:], incs[0][1:]))
+    return rows
+
+
+def _lean_b3(t) -> str:
+    return "(" + ", ".join("true" if x else "false" for x in t) + ")"
+
+
 def translate():
     t = extract(common.REPO)
     st = extract_settings()
     t["settings"] = st
+    cfg = probe_reader_config()
+    t["readerCfgProbe"] = cfg
     lines = [
         "/- GENERATED by translate/c14.py from ford/fixed2free2.py (by probing the real FortranLine) - do not edit -/",
         "import FordModel.Basic.Chars",
@@ -210,6 +295,11 @@ def translate():
         f"def extensions : List Str := {_lean_strs(st['extensions'])}",
         f"def fixedExtensions : List Str := {_lean_strs(st['fixed_extensions'])}",
         f"def fppExtensions : List Str := {_lean_strs(st['fpp_extensions'])}",
+        "/-- (fixed, `fixed_length_limit`, preprocessor given) of a `FortranSourceFile` -> the (fixed, length_limit, "
+        "preprocessor) its `FortranReader` was constructed with -> those of the nested reader of an INCLUDEd file; "
+        "recorded on the real code -/",
+        "def readerCfgProbe : List ((Bool × Bool × Bool) × (Bool × Bool × Bool) × (Bool × Bool × Bool)) := ["
+        + ", ".join(f"({_lean_b3(a)}, {_lean_b3(b)}, {_lean_b3(c)})" for a, b, c in cfg) + "]",
         "end Ford.Fixed.Gen",
         "",
     ]
